@@ -97,3 +97,18 @@ Print Assumptions C02_remove_refines_map.
 Theorem C02_fresh_storage : forall ctr id, id < ctr -> WF_store ctr (empty_tree id) /\ abs_tree (empty_tree id) = [].
 Proof. exact empty_tree_wf. Qed.
 Print Assumptions C02_fresh_storage.
+
+(** ** The whole system: every scan-free operation sequence refines the map of ordered maps *)
+From Yk Require Import SysDefs SysProofs.
+
+(** THE statement of C02 (and of C13's sequential half): for every sequence of create /
+    delete-storage / find / put / unique put / get / remove / destroy over arbitrary byte-string
+    names and keys (no length bound), every returned status and value equals what a map from
+    names to ordered byte-string maps returns.  In particular removing every key and
+    re-inserting in any order behaves as on a fresh storage (outputs depend on the abstraction
+    only). *)
+Theorem C02_refines_map : forall ops,
+  Forall (fun o => noscan o = true) ops -> Forall op_bytes ops ->
+  map abs_out (snd (exec_all sys_init ops)) = snd (spec_exec_all spec_init ops).
+Proof. exact sys_refines_spec. Qed.
+Print Assumptions C02_refines_map.
